@@ -339,6 +339,9 @@ var scenarios = []scenario{
 	{Name: "three-priorities-q1-size1", Quota: 1, QueueSize: 1, TTL: 5 * W / 2, Arrivals: []arrival{{"A", 1, 0, 0}, {"B", 2, 0, 0}, {"C", 0, time.Millisecond, 0}}},
 	{Name: "expired-waiter-ahead-of-live-one", Quota: 1, QueueSize: 3, TTL: 5 * W / 2, Arrivals: []arrival{{"A", 1, 0, 0}, {"B", 0, time.Millisecond, W / 4}, {"C", 1, W / 2, 0}}},
 	{LessPre: true, Name: "arrivals-after-expired-waiter-size2", Quota: 1, QueueSize: 2, TTL: 5 * W / 2, Arrivals: []arrival{{"A", 1, 0, 0}, {"B", 1, time.Millisecond, W / 4}, {"C", 1, W / 2, 0}, {"D", 1, W/2 + time.Millisecond, 0}}},
+	// the waiter's TTL ends exactly when the window rolls over: expiry and hand-off race; a
+	// later arrival must still find the queue place free
+	{Name: "ttl-expiry-coincides-with-rollover", Quota: 1, QueueSize: 1, TTL: W, Arrivals: []arrival{{"A", 1, 0, 0}, {"B", 1, 0, 0}, {"C", 1, W + time.Millisecond, 0}}},
 	{Plugin: true, Name: "plugin-two-first-requests", Quota: 1, QueueSize: 2, TTL: 2 * W, Arrivals: []arrival{{"A", 1, 0, 0}, {"B", 1, 0, 0}}},
 	{Plugin: true, Name: "plugin-three-priorities", Quota: 1, QueueSize: 1, TTL: 2 * W, Arrivals: []arrival{{"A", 1, 0, 0}, {"lo", 2, time.Millisecond, 0}, {"hi", 0, 2 * time.Millisecond, 0}}},
 	{Name: "three-priorities-q1-size2", Quota: 1, QueueSize: 2, TTL: 7 * W / 2, Arrivals: []arrival{{"A", 1, 0, 0}, {"lo", 2, time.Millisecond, 0}, {"hi", 0, 2 * time.Millisecond, 0}}},
